@@ -327,16 +327,17 @@ func (g *gen) field(fieldName string, fieldType types.Type) (string, error) {
 				// a named float type has to be converted before math.Float32bits accepts it
 				fieldName = "float32(" + fieldName + ")"
 			}
-			return fmt.Sprintf("uint64(%s.Float32bits(%s))", g.mathPkg(), fieldName), nil
+			// x + 0 maps -0 to +0, which == (and derived Equal) cannot tell apart
+			return fmt.Sprintf("uint64(%s.Float32bits(%s + 0))", g.mathPkg(), fieldName), nil
 		case types.Float64:
 			if _, named := fieldType.(*types.Basic); !named {
 				fieldName = "float64(" + fieldName + ")"
 			}
-			return fmt.Sprintf("%s.Float64bits(%s)", g.mathPkg(), fieldName), nil
+			return fmt.Sprintf("%s.Float64bits(%s + 0)", g.mathPkg(), fieldName), nil
 		case types.Complex64:
-			return fmt.Sprintf("(31 * ((31 * 17) + uint64(%s.Float32bits(real(%s))))) + uint64(%s.Float32bits(imag(%s)))", g.mathPkg(), fieldName, g.mathPkg(), fieldName), nil
+			return fmt.Sprintf("(31 * ((31 * 17) + uint64(%s.Float32bits(real(%s) + 0)))) + uint64(%s.Float32bits(imag(%s) + 0))", g.mathPkg(), fieldName, g.mathPkg(), fieldName), nil
 		case types.Complex128:
-			return fmt.Sprintf("(31 * ((31 * 17) + %s.Float64bits(real(%s)))) + %s.Float64bits(imag(%s))", g.mathPkg(), fieldName, g.mathPkg(), fieldName), nil
+			return fmt.Sprintf("(31 * ((31 * 17) + %s.Float64bits(real(%s) + 0))) + %s.Float64bits(imag(%s) + 0)", g.mathPkg(), fieldName, g.mathPkg(), fieldName), nil
 		case types.String, types.UntypedString:
 			return fmt.Sprintf("%s(%s)", g.GetFuncName(fieldType), fieldName), nil
 		}
